@@ -95,7 +95,8 @@ def showPair (a : Agent) (p : Pair) : String :=
   let rt := (rc.map (·.ty)).getD 0
   s!"{p.id}:{la}>{ra}:{rt}:{p.state.str}:n{b01 p.nominated}d{b01 p.nomOnSuccess}v{showOpt p.deferredNom}:c{p.reqCount}:p{a.pairPrio p}:q{p.reqSent}/{p.reqRecv}/{p.respSent}/{p.respRecv}:k{p.pktSent}/{p.pktRecv}/{p.bytesSent}/{p.bytesRecv}"
 
-def showRemote (c : Cand) : String := s!"{c.ty}@{c.net}.{c.addr}:p{c.prio}:r{showOpt c.rel}:lr{showMs c.lastRecv}"
+def showRemote (c : Cand) : String :=
+  s!"{c.ty}@{c.net}.{c.addr}{if c.form != 0 then s!"~{c.form}" else ""}:p{c.prio}:r{showOpt c.rel}:lr{showMs c.lastRecv}"
 def showLocal (c : Cand) : String := s!"{c.ty}@{c.net}.{c.addr}:p{c.prio}:ls{showMs c.lastSent}"
 
 def byNet (l : List Cand) : List Cand := l.filter (·.net == 0) ++ l.filter (·.net == 1)
@@ -154,6 +155,11 @@ def stepSys (st : State) (toks : List String) : Option (Sys × String) :=
     match who w, parseCand ty net addr prio rel with
     | some isB, some c => some (agentOp st isB (.addRemote s.now c))
     | _, _ => none
+  -- trailing `form`: spelling of the signalled address literal (0 canonical, 1 IPv4-mapped / expanded)
+  | ["addremote", w, ty, net, addr, prio, rel, form] =>
+    match who w, parseCand ty net addr prio rel, form.toNat? with
+    | some isB, some c, some form => some (agentOp st isB (.addRemote s.now { c with form := form }))
+    | _, _, _ => none
   | ["start", w, ctl, ru, rp] =>
     (who w).map fun isB => agentOp st isB (.start s.now (ctl == "1") (tok ru) (tok rp))
   | ["creds", w, ru, rp] => (who w).map fun isB => agentOp st isB (.setRemoteCreds (tok ru) (tok rp))
@@ -180,7 +186,12 @@ def stepSys (st : State) (toks : List String) : Option (Sys × String) :=
     match who w, id.toNat?, len.toNat? with
     | some isB, some id, some len => some (agentOp st isB (.writeToPair s.now id len (sl == "1")))
     | _, _, _ => none
-  | ["read", w] => (who w).map fun isB => agentOp st isB .read
+  -- `read X [cap]`: caller buffer of `cap` bytes; absent = receiveMTU (8192)
+  | ["read", w] => (who w).map fun isB => agentOp st isB (.read 8192)
+  | ["read", w, cap] =>
+    match who w, cap.toNat? with
+    | some isB, some cap => some (agentOp st isB (.read cap))
+    | _, _ => none
   | ["renom", w, la, ri, v] =>
     match who w, la.toNat?, ri.toNat?, v.toNat? with
     | some isB, some la, some ri, some v => some (agentOp st isB (.renominate s.now la ri v))
